@@ -290,6 +290,35 @@ def analyse_ctors(db, R, kinds):
             R.violation('P-ctor', 'memory_input.hpp::memory_input_base', '%s tracking: %s' % ('lazy' if lazy else 'eager', pmsg), {'function': fn['disp'][:160]}, key=('ctor', lazy, from_iter, pmsg))
 
 
+def analyse_restart(R, kinds):
+    """P-restart: restart( byte, line, column ) of an eagerly tracked input leaves the cursor at the begin of the data with exactly the counters it is given"""
+    db = core.DB(core.extract(list(units.INPUTS)))
+    for fn in db.order:
+        cls = fn.get('cls') or {}
+        if (cls.get('tn') or '') != TI + 'memory_input_base' or fn['n'] != 'restart' or len(fn.get('params', [])) != 3 or 'tracking_mode::eager' not in (cls.get('s') or '') or '/tao/pegtl/' not in fn['pat']: continue
+        sp = Space()
+        for v in ('B', 'L', 'C'): sp.var(v, 4)
+        it = Interp(db, sp)
+        B, L, C = (Val({sp.byname[v].level: [10 * (i + 1) + x for x in range(4)]}) for i, v in enumerate(('B', 'L', 'C')))
+        st = St(sp.full())
+        st.env['this'] = Rec({'m_begin': Ptr('cur', 0), 'm_end': Ptr('end', 0), 'private_depth': Val.const(0), 'm_current': Rec({'data': Ptr('cur', 5), 'byte': Val.const(5), 'line': Val.const(2), 'column': Val.const(3)})})
+        for p, v in zip(fn['params'], (B, L, C)): st.env[p['id']] = v
+        probs = []
+        try:
+            for kind, v, s in outcomes(it, fn, st):
+                if kind not in ('fall', 'return'): continue            # the assertions on line and column
+                cur = s.env['this'].f.get('m_current')
+                if not isinstance(cur, Rec): raise Unmodelled('cursor after restart is %r' % (cur,))
+                if not (isinstance(cur.f.get('data'), Ptr) and cur.f['data'].base == 'cur' and cur.f['data'].off == 0): probs.append('after restart( byte, line, column ) the cursor is not at the begin of the data')
+                for f, w in zip(('byte', 'line', 'column'), (B, L, C)):
+                    if differs(sp, s.cond, cur.f.get(f), w) is not None: probs.append('after restart( byte, line, column ) the %s counter is not the %s it was given' % (f, f))
+        except (Unmodelled, Blowup, KeyError) as e:
+            R.broke('restart %s: %s' % (fn['disp'][:120], e)); continue
+        kinds['restart'] += 1
+        R.ob(ok=not probs, key=('restart', fn['disp']))
+        for pmsg in sorted(set(probs)): R.violation('P-ctor', 'memory_input.hpp::memory_input_base::restart', pmsg, {'function': fn['disp'][:160]}, key=('restart', pmsg))
+
+
 def analyse_forward(db, R, kinds, covered):
     for fn in db.order:
         cls = (fn.get('cls') or {}); tn = cls.get('tn') or ''
@@ -544,6 +573,7 @@ def run(tier):
     analyse_forward(db, R, kinds, covered)
     analyse_ctors(db, R, kinds)
     analyse_subinputs(db, R, kinds)
+    analyse_restart(R, kinds)
     analyse_writers(R, kinds, tier)
     analyse_scanners(R, kinds, covered, tier)
     sites = shortcut_sites()
@@ -551,7 +581,7 @@ def run(tier):
     for site in sorted(set(sites) - set(covered)):
         R.broke('the position shortcut at %s (%s) is not reached by any analysed instantiation: it cannot be justified' % (site, sites[site]))
     R.cov['obligations_by_kind'] = dict(kinds)
-    for k, fl in (('shortcut', 220), ('bump', 3), ('forward', 55), ('scanner', 12), ('subinput', 2), ('subinput-policy', 4), ('writer', 11), ('ctor', 8)):
+    for k, fl in (('shortcut', 220), ('bump', 3), ('forward', 55), ('scanner', 12), ('subinput', 2), ('subinput-policy', 4), ('writer', 11), ('ctor', 8), ('restart', 1)):
         if kinds.get(k, 0) < fl: R.broke('only %d %s obligations (floor %d)' % (kinds.get(k, 0), k, fl))
     R.assumptions = ['UTF-16/32 and multi-byte binary rules are outside the statement (documented exclusion); the ICU rules use the general bump()',
                      'single-unit and fixed-string rules are decided exactly for all inputs whose relevant window is 9 bytes; the digit, chunk-size and raw-string scanners on all class strings up to the bound; '
